@@ -173,6 +173,31 @@ def c14b(ctx, impls, prog):
     o.sites = n
     if n < 130:
         ctx.fail(o, "(program)", "expected >= 130 base names, found %d" % n)
+    # derived impls: the name is `pkg@version::<module path>::<Ident>`, i.e. it ends with the full path of the type
+    od = ctx.ob("C14.b", "derived-names-carry-the-full-path", "K5", "a derived id starts from package@version::module::path::Ident, so equal identifiers in different modules/crates/versions do not collide")
+    m = 0
+    for im, b in impls:
+        if not im.get("from_expansion") or not im.get("self_adt"):
+            continue
+        calls = b.calls_to(r"StableTypeID::from_unique_type_name$")
+        if len(calls) != 1:
+            continue
+        a = calls[0].node["args"][0].get("c")
+        if a is None:
+            cands = [x for x in df.origins_of_operand(b, calls[0].node["args"][0]) if x.kind == "const"]
+            a = {"s": str(cands[0].info)} if len(cands) == 1 else None
+        if a is None:
+            continue
+        name = a["s"].strip('"')
+        head, _, tail = name.partition("::")
+        if im["self_adt"].startswith(("core::", "alloc::", "std::")) or im["crate"] == "qbice_stable_type_id":
+            continue  # hand-written / macro_rules impls for foreign types use fixed names (uniqueness is C14.b above)
+        m += 1
+        if "@" not in head or tail != im["self_adt"]:
+            ctx.fail(od, calls[0], "the derived base name of `%s` is %s, not `<package>@<version>::%s`" % (short(im["self_ty"]), a["s"], im["self_adt"]))
+    od.sites = m
+    if m < 10:
+        ctx.fail(od, "(program)", "expected >= 10 derived Identifiable impls, found %d" % m)
     ctx.notes.append("%d distinct base names" % len(names))
     # from_raw_parts (which bypasses the name hash) is unsafe and used only for array lengths and QueryID unpacking
     o2 = ctx.ob("C14.b", "raw-parts-fenced", "K3+K10", "ids are forged from raw parts only behind `unsafe`, at the two audited sites")
